@@ -477,6 +477,16 @@ def methods(ctx):
                         s["problems"] = s["problems"][:2] + ["evaluation: %s" % ex]
                     elif not s["emits"]:
                         pass
+            if any(x[0] == "mcall" and x[2] == "dedup_insert_type" for x in walk(f["body"])) and f["name"] != "dedup_insert_type":
+                # implicit-type methods: the explicit / found / fresh decision is evaluated on builders with and without an identical declaration
+                from . import evalsum
+                try:
+                    s = evalsum.dedup_summary(ctx, f, s)
+                except evalsum.NoInstruction:
+                    pass
+                except Anchor as ex:
+                    if not s["dedup"]:
+                        s["dedup"] = {"shape_ok": False, "explicit_param": None, "why": "not evaluable: %s" % ex, "text": ""}
             if s["emits"] and s["problems"] and s["vis"] != "pub":
                 # a private helper that cannot be summarised on its own (e.g. the opcode is a parameter) is covered through the
                 # methods that call it, which are evaluated with it inlined
